@@ -119,6 +119,10 @@ def menu():
         add(o, ['/nonexistent/dir/x', os.path.join(TMP, 'o.txt'), ''])
     add('--mininec-version', ['9', '12', '13', '10'])
     M.append(('-T', None))
+    # boundary values of pulse addressing, derived from the pulse table of the base itself
+    for form in ('abs-last', 'abs-past', 'rel-last', 'rel-past', 'rel-last-obj2', 'rel-past-obj2'):
+        M.append(('SRC-BOUNDARY', form))
+        M.append(('LOAD-BOUNDARY', form))
     # degenerate / duplicate geometry derived from the base itself
     M.append(('DUP-FIRST-WIRE', 'same'))
     M.append(('DUP-FIRST-WIRE', 'reversed'))
@@ -142,6 +146,20 @@ def apply_dev(argv, opt, val):
     argv = list(argv)
     if val is None:
         return argv + [opt]
+    if opt in ('SRC-BOUNDARY', 'LOAD-BOUNDARY'):
+        info = base_info(tuple(argv))
+        if info is None:
+            return argv
+        N, objs = info
+        tag, n = objs[0] if 'obj2' not in val or len(objs) < 2 else objs[1]
+        if val.startswith('abs'):
+            addr = '%d' % (N if 'last' in val else N + 1)
+        else:
+            addr = '%d,%d' % (n if 'last' in val else n + 1, tag)
+        if opt == 'SRC-BOUNDARY':
+            return [a for a in argv if not a.startswith('--excitation-pulse')] + ['--excitation-pulse=' + addr]
+        nl = 1 + sum(1 for a in argv if a.startswith(('--load', '--rlc-load', '--trap-load', '--laplace-load-a')))
+        return argv + ['--load=50', '--attach-load=1,' + addr] if nl == 1 else argv + ['--attach-load=1,' + addr]
     if opt == 'DUP-FIRST-WIRE':
         i = argv.index('-w')
         v = argv[i + 1].split(',')
@@ -169,6 +187,17 @@ def apply_dev(argv, opt, val):
     if opt.startswith('--'):
         return argv + [opt + '=' + val]
     return argv + [opt, val]
+
+
+_INFO = {}
+
+
+def base_info(argv):
+    """(number of pulses, [(tag, pulses of that object)]) of an accepted argument list"""
+    if argv not in _INFO:
+        m, diag = cli.build_main(list(argv))
+        _INFO[argv] = None if m is None else (len(m.pulses), [(g.tag, len(g.pulses)) for g in m.geo if len(g.pulses)])
+    return _INFO[argv]
 
 
 def classify(kind, r, out, err, argv):
